@@ -280,6 +280,6 @@ def run(ctx):
         if m is not None and not skipped:
             ctx.fail("builtin", case, m, sig=sig_of(m))
     if ctx.quick:
-        ctx.parallel(shard, 16, 100)
+        ctx.parallel(shard, 16, 300)
     else:
         ctx.parallel(shard, 16, 6000)
